@@ -32,7 +32,7 @@ NsOf(arr)  == [k \in { <<arr[i].c, arr[i].L>> : i \in DOMAIN arr } |->
 NoGhost == [pk |-> {}, recv |-> EmptyFn, ackw |-> EmptyFn, done |-> {}, refd |-> {}]
 
 StateOf(st, G) == [now |-> st.now, bal |-> BalOf(st.bal), sup |-> SupOf(st.sup), inf |-> SetOf(st.inf), ns |-> NsOf(st.ns),
-                   pk |-> G.pk, recv |-> G.recv, ackw |-> G.ackw, done |-> G.done, refd |-> G.refd]
+                   pk |-> G.pk, recv |-> G.recv, ackw |-> G.ackw, done |-> G.done, refd |-> G.refd, off |-> SetOf(st.off)]
 
 GhostOf(T) == [pk |-> T.pk, recv |-> T.recv, ackw |-> T.ackw, done |-> T.done, refd |-> T.refd]
 
@@ -44,7 +44,7 @@ WackFn(ln) == [k \in { IdOf(ln.wack[i].pkt) : i \in DOMAIN ln.wack } |->
 
 GhostStep(T, a, ln) ==
     LET G == GhostOf(T)  w == WackFn(ln)  sent == SetOf(ln.sent) IN
-    IF ln.res # "ok" \/ a.a \in {"Block", "XImport"} THEN G
+    IF ln.res # "ok" \/ a.a \in {"Block", "XImport", "SetSend"} THEN G
     ELSE IF a.a = "Transfer" THEN [G EXCEPT !.pk = @ \cup sent]
     ELSE LET id == Id(a.pkt) IN
       CASE a.a = "Recv" ->
@@ -75,6 +75,10 @@ Viol(T, a, ln, post) ==
   \cup { <<"C43", "escrow-backs-vouchers">> : x \in IF I_Backed(post) THEN {} ELSE {1} }
   \cup { <<"C43", "no-intermediate-funds">> : x \in IF I_NoIntermediateFunds(post) THEN {} ELSE {1} }
   \cup { <<"C43", "inflight-only-while-live">> : x \in IF I_InflightLive(post) THEN {} ELSE {1} }
+  \* ---- C30 (ICS-20 conserves tokens across chains; judged by the ics20 family's property, which lists this family
+  \*      under "also"): the per-channel balance and the constant supply of native tokens along forward routes ---------
+  \cup { <<"C30", "pfm-escrow-backs-vouchers">> : x \in IF I_Backed(post) THEN {} ELSE {1} }
+  \cup { <<"C30", "pfm-native-supply-constant">> : x \in IF I_NativeSupply(post) THEN {} ELSE {1} }
   \* ---- all or nothing when the user's packet is finished on the origin --------------------
   \cup { <<"C43", "delivered-means-credited">> : x \in
            IF terminal /\ delivered
@@ -117,7 +121,7 @@ Sanity(ln, T) ==
 Report(ln, viol) == \A v \in viol : PrintT(<<"MONFAIL", ln.tr, ln.i, v>>)
 
 InitCheck(ln) == LET T == StateOf(ln.st, NoGhost) IN
-    IF Bank(T) = Bank(SetUp) /\ T.ns = SetUp.ns /\ T.now = SetUp.now THEN TRUE
+    IF Bank(T) = Bank(SetUp) /\ T.ns = SetUp.ns /\ T.now = SetUp.now /\ T.off = {} THEN TRUE
     ELSE PrintT(<<"MONFAIL", ln.tr, ln.i, <<"X", "setup-differs-from-spec">>>>)
 
 TraceInit == l = 1 /\ S = StateOf(Trace[1].st, NoGhost) /\ J = NoJ /\ InitCheck(Trace[1])
